@@ -19,18 +19,19 @@ import (
 // engine: lists are handled as records (field name -> canonical JSON).
 
 type listSpec struct {
-	name      string
-	typ       reflect.Type // the list data type (struct with one slice field)
-	listField int
-	item      reflect.Type
-	keys      []int  // item fields tagged eebus:"key"
-	keyKind   string // "uint", "string", "none", "other"
-	pay       []int  // two payload fields (non-key, not the writecheck field)
-	wcheck    int    // field tagged writecheck, -1 if none
-	fn        model.FunctionType
-	ft        model.FeatureTypeType
-	hasFn     bool
-	selT, elT reflect.Type // nil if not found
+	name       string
+	typ        reflect.Type // the list data type (struct with one slice field)
+	listField  int
+	item       reflect.Type
+	keys       []int  // item fields tagged eebus:"key"
+	keyKind    string // "uint", "string", "none", "other"
+	pay        []int  // two payload fields (non-key, not the writecheck field)
+	sliceField string // name of the payload field that is a list, if the item type has one
+	wcheck     int    // field tagged writecheck, -1 if none
+	fn         model.FunctionType
+	ft         model.FeatureTypeType
+	hasFn      bool
+	selT, elT  reflect.Type // nil if not found
 }
 
 func eebusTag(f reflect.StructField, key string) bool {
@@ -113,6 +114,25 @@ func listSpecs() []*listSpec {
 				continue
 			}
 			sp.pay = append(sp.pay, i)
+		}
+		// an item field that is itself a list (time series slots, permitted value sets, tier references ...)
+		// takes the place of the second payload field: "keeping the fields it does not mention" covers those too
+		for i := 0; i < sp.item.NumField(); i++ {
+			f := sp.item.Field(i)
+			if f.Type.Kind() != reflect.Slice || eebusTag(f, "key") || eebusTag(f, "writecheck") {
+				continue
+			}
+			v1, v2 := refl.Fill(f.Type, 2, 1), refl.Fill(f.Type, 2, 2)
+			if v1.Len() == 0 || world.JSON(v1.Interface()) == world.JSON(v2.Interface()) {
+				continue
+			}
+			if len(sp.pay) < 2 {
+				sp.pay = append(sp.pay, i)
+			} else {
+				sp.pay[1] = i
+			}
+			sp.sliceField = sp.item.Field(i).Name
+			break
 		}
 		if r, ok := byPayload[t]; ok {
 			sp.fn, sp.ft, sp.hasFn = r.fd.FunctionType(), r.ft, true
@@ -354,7 +374,8 @@ func (sp *listSpec) selectorFor(id int, byPayload bool) (any, bool) {
 	set := 0
 	names := sp.keyNames()
 	if byPayload {
-		if len(sp.pay) == 0 {
+		// (what a selector made of a list-valued field alone selects is not defined by the statement)
+		if len(sp.pay) == 0 || sp.item.Field(sp.pay[0]).Type.Kind() != reflect.Ptr {
 			return nil, false
 		}
 		names = []string{sp.item.Field(sp.pay[0]).Name}
@@ -373,7 +394,7 @@ func (sp *listSpec) selectorFor(id int, byPayload bool) (any, bool) {
 }
 
 func (sp *listSpec) elementsFor() (any, string, bool) {
-	if sp.elT == nil || len(sp.pay) == 0 || sp.elT.NumField() != sp.item.NumField() {
+	if sp.elT == nil || len(sp.pay) == 0 || sp.elT.NumField() != sp.item.NumField() || sp.item.Field(sp.pay[0]).Type.Kind() != reflect.Ptr {
 		return nil, "", false
 	}
 	n := sp.item.Field(sp.pay[0]).Name
